@@ -1,6 +1,179 @@
-import StepModel.Lazy
-namespace StepModel.Lazy
+import StepModel.LazyLemmas
+import StepModel.LazyScan
+/-!
+# C10 — the lazy loader sees the same file as the eager reader
 
-theorem C10_stub : skipWS [] = [] := rfl
+Model: `StepModel/Lazy.lean`.  `es` below is the list of instances of the data section in file order
+(`Entry` = id, keyword, the ids it mentions in order); by `C10_scan_*` that list is what the byte scanner produces for a
+rendered file, and everything else is stated for **all** `es`, all ids and all call histories — no size bound.
+-/
+namespace StepModel.Lazy
+open StepModel.Generated
+
+/-! ## the byte scanner -/
+
+theorem skipWS_ws_append (ws : Bytes) (hws : ws.all isSpace = true) (c : Char) (hc : isSpace c = false) (r : Bytes) :
+    skipWS (ws ++ c :: r) = c :: r := by
+  induction ws with
+  | nil => exact skipWS_nonspace c r hc
+  | cons w t ih =>
+    simp only [List.all_cons, Bool.and_eq_true] at hws
+    simp [skipWS, hws.1, ih hws.2]
+
+/-- **`seekInstanceEnd` finds the end of every rendered parameter list and collects exactly its references.**
+    `ts` is any token list (references, strings, comments, parentheses, any other bytes) that is balanced inside one
+    outer pair of parentheses; strings may contain anything but a backslash (apostrophes doubled), comments anything
+    but `*`, `/`, `'` — in particular `#`, `#12`, `(`, `)`, `;`, `=`.  After the closing `)` any white space, then `;`.
+    The scanner stops right after that `;` and reports the `#n` tokens, in order — nothing from inside strings or comments. -/
+theorem C10_scan_body (ts : List Tok) (hall : ∀ t ∈ ts, t.ok = true) (hseq : seqOk ts = true)
+    (hin : innerOk 1 ts = true) (hd : depthAfter 1 ts = 1)
+    (ws : Bytes) (hws : ws.all isSpace = true) (rest : Bytes) (f : Nat)
+    (hf : (renderToks ts).length + 4 ≤ f) :
+    seekEnd f 0 [] ('(' :: (renderToks ts ++ ')' :: (ws ++ ';' :: rest))) = .ok (refsOfToks ts, rest) := by
+  obtain ⟨f0, rfl⟩ : ∃ j, f = j + 1 := ⟨f - 1, by omega⟩
+  obtain ⟨f', hk, he⟩ := seekEnd_toks 2 (by omega) ts hall hseq 1 [] (')' :: (ws ++ ';' :: rest)) f0 hin
+    (fun c hc => by simp at hc; subst hc; decide) (by simp) (by omega)
+  obtain ⟨f1, rfl⟩ : ∃ j, f' = j + 1 := ⟨f' - 1, by omega⟩
+  have h1 : seekEnd (f0 + 1) 0 [] ('(' :: (renderToks ts ++ ')' :: (ws ++ ';' :: rest))) =
+      seekEnd f0 1 [] (renderToks ts ++ ')' :: (ws ++ ';' :: rest)) := by
+    simp [seekEnd]
+  rw [h1, he, hd]
+  have hsk := skipWS_ws_append ws hws ';' (by decide) rest
+  simp (config := { decide := true }) [seekEnd, hsk]
+
+/-- non-vacuity: `('it''s #5 (( ;',/*#7 ( ;*/ #12,(#3))` followed by ` ;` -/
+example :
+    let ts : List Tok := [.str [.plain 'i', .plain 't', .quote, .plain 's', .plain ' ', .plain '#', .plain '5',
+        .plain '(', .plain '(', .plain ';'], .other ',', .cmt ['#', '7', ' ', '(', ' ', ';'], .ref ['1', '2'],
+        .other ',', .popen, .ref ['3'], .pclose]
+    (∀ t ∈ ts, t.ok = true) ∧ seqOk ts = true ∧ innerOk 1 ts = true ∧ depthAfter 1 ts = 1 ∧
+      refsOfToks ts = [12, 3] := by
+  decide
+
+/-! ## the index tables -/
+
+/-- the index lists exactly the scanned instances, in file order (ids and keywords) -/
+theorem C10_index_entries (es : List Entry) : (build es).entries = es := by
+  simp [build, foldl_addLazy_entries]
+
+/-- `getInstances(kw)` = the ids of the instances with that keyword -/
+theorem C10_index_by_keyword (es : List Entry) (kw : Bytes) :
+    (build es).instancesOf kw = (es.filter (fun e => e.kw == kw)).map (·.id) := by
+  simp [Index.instancesOf, C10_index_entries]
+
+/-- forward table: instance `k` ↦ precisely the instances it mentions, in order -/
+theorem C10_fwd_exact (es : List Entry) (k : Nat) : (build es).fwd.find k = fwdSpec es k := by
+  simp [build, foldl_addLazy_fwd, MM.find]
+
+/-- reverse table: `k` ↦ one entry per mention of `k` -/
+theorem C10_rev_exact (es : List Entry) (k : Nat) : (build es).rev.find k = revSpec es k := by
+  simp [build, foldl_addLazy_rev, MM.find]
+
+/-- the reverse table is the exact transpose of the forward table (with multiplicities) -/
+theorem C10_rev_transpose (es : List Entry) (a b : Nat) :
+    ((build es).rev.find a).count b = ((build es).fwd.find b).count a := by
+  rw [C10_rev_exact, C10_fwd_exact, count_revSpec]
+
+theorem C10_rev_transpose_mem (es : List Entry) (a b : Nat) :
+    b ∈ (build es).rev.find a ↔ a ∈ (build es).fwd.find b := by
+  rw [← List.count_pos_iff, ← List.count_pos_iff, C10_rev_transpose]
+
+/-! ## instanceDependencies -/
+
+/-- the worklist terminates (within the fuel the model gives it) and returns exactly the reflexive-free transitive
+    closure of the forward table -/
+theorem C10_deps_closure (es : List Entry) (id : Nat) :
+    ∃ d, deps (build es) id = .ok d ∧
+      ∀ j, j ∈ d ↔ Reach (fun a b => b ∈ (build es).fwd.find a) id j := by
+  obtain ⟨d, hd⟩ := depsLoop_terminates (build es).fwd (depsFuel (build es).fwd id) ((build es).fwd.find id) []
+    (by simp [depsFuel, pot])
+  refine ⟨d, hd, ?_⟩
+  have := depsLoop_inv (build es).fwd.find id _ _ _ d hd
+    (fun x hx => by
+      rcases hx with hx | hx
+      · exact Reach.single hx
+      · cases hx)
+    ⟨fun x hx => Or.inl hx, fun c hc => by cases hc⟩
+  intro j
+  exact ⟨this.1 j, closed_reach _ id d this.2 j⟩
+
+/-- an instance is among its own dependencies exactly when it lies on a reference cycle -/
+theorem C10_deps_self_iff_cycle (es : List Entry) (id : Nat) (d : List Nat) (h : deps (build es) id = .ok d) :
+    id ∈ d ↔ Reach (fun a b => b ∈ fwdSpec es a) id id := by
+  obtain ⟨d', hd', hiff⟩ := C10_deps_closure es id
+  rw [h] at hd'
+  cases hd'
+  rw [hiff]
+  have : (fun a b => b ∈ (build es).fwd.find a) = (fun a b => b ∈ fwdSpec es a) := by
+    funext a b; rw [C10_fwd_exact]
+  rw [this]
+
+/-! ## loadInstance -/
+
+/-- Any history of `loadInstance` calls (any order, with repetitions, including ids the file does not have), for any
+    population — cyclic ones included: every call returns (no unbounded recursion, fuel = number of instances + 1
+    suffices), returns non-null exactly for the ids in the file, every requested instance is in the cache, and every
+    object in the cache has each of its references resolved exactly as the eager reader resolves it — independent of
+    the history.  Rests on `cacheBeforeRead = true`, which is regenerated from `sectionReader::getRealInstance`. -/
+theorem C10_load_any_order (es : List Entry) (ids : List Nat) (fuel : Nat) (hf : es.length < fuel) :
+    ∃ c, loadAll cacheBeforeRead es fuel [] ids = .ok (c, ids.map (known es)) ∧
+      (∀ o ∈ c, known es o.id = true ∧ o.resolved = expected es o.id) ∧
+      (∀ id ∈ ids, known es id = true → c.has id = true) := by
+  have hcb : cacheBeforeRead = true := rfl
+  rw [hcb]
+  have key : ∀ (ids : List Nat) (c0 : Cache), WF es c0 → (∀ x, isPend c0 x = false) →
+      ∃ c, loadAll true es fuel c0 ids = .ok (c, ids.map (known es)) ∧ Ext c0 c ∧ WF es c ∧
+        (∀ x, isPend c x = false) ∧ (∀ id ∈ ids, known es id = true → c.has id = true) := by
+    intro ids
+    induction ids with
+    | nil => intro c0 hw hp; exact ⟨c0, rfl, Ext.refl _, hw, hp, fun _ h => by cases h⟩
+    | cons i t ih =>
+      intro c0 hw hp
+      have hu : U es c0 < fuel := by
+        have : U es c0 ≤ es.length := by unfold U; exact List.length_filter_le _ _
+        omega
+      obtain ⟨c1, h1, e1, w1, p1, k1⟩ := load_spec es fuel c0 i hu hw
+      have hp1 : ∀ x, isPend c1 x = false := by
+        intro x
+        cases hx : isPend c1 x with
+        | false => rfl
+        | true => have := p1 x hx; rw [hp x] at this; cases this
+      obtain ⟨c2, h2, e2, w2, p2, k2⟩ := ih c1 w1 hp1
+      refine ⟨c2, ?_, e1.trans e2, w2, p2, ?_⟩
+      · simp only [loadAll, h1, h2, List.map_cons]
+      · intro id hid hk
+        rcases List.mem_cons.mp hid with h | h
+        · subst h; exact e2 _ (k1 hk)
+        · exact k2 id h hk
+  obtain ⟨c, h, _, w, p, k⟩ := key ids [] (fun o ho => by cases ho) (fun x => rfl)
+  refine ⟨c, h, ?_, k⟩
+  intro o ho
+  refine ⟨(w o ho).1, ?_⟩
+  rcases (w o ho).2 with h0 | h0
+  · have : isPend c o.id = true := by
+      unfold isPend; rw [List.any_eq_true]; exact ⟨o, ho, by simp [h0]⟩
+    rw [p o.id] at this; cases this
+  · exact h0
+
+/-- The code as it was (instance cached only after `getRealInstance` returns): on the two-instance cycle
+    `#1=N('a',#2); #2=N('b',#1);` `loadInstance(1)` never returns — for every fuel the model runs out of it
+    (the C++ overflows the stack: SIGSEGV, replayed by `checks/c10.py`, corpus `cycle2`). -/
+theorem C10_load_cycle_witness (kw : Bytes) : ∀ fuel,
+    load false [⟨1, kw, [2]⟩, ⟨2, kw, [1]⟩] fuel [] 1 = .outOfFuel ∧
+    load false [⟨1, kw, [2]⟩, ⟨2, kw, [1]⟩] fuel [] 2 = .outOfFuel := by
+  intro fuel
+  induction fuel with
+  | zero => exact ⟨rfl, rfl⟩
+  | succ f ih =>
+    constructor
+    · simp [load, Cache.has, refsOf, loadRefsWith, ih.2]
+    · simp [load, Cache.has, refsOf, loadRefsWith, ih.1]
+
+/-- hypotheses are satisfiable: the same cycle loads fine with the cache entered before the attributes are read -/
+example : (match loadAll true [⟨1, [], [2]⟩, ⟨2, [], [1]⟩] 3 [] [1, 2, 1] with
+    | .ok (c, bs) => bs == [true, true, true] && c.length == 2
+    | _ => false) = true := by decide
+
+example : deps (build [⟨1, [], [2]⟩, ⟨2, [], [1, 3]⟩, ⟨3, [], []⟩]) 1 = .ok [3, 1, 2] := by decide
 
 end StepModel.Lazy
